@@ -1071,7 +1071,13 @@ func lshTerms(c *Ctx, lsh *ssa.Function, bitsField, msbField string) {
 			sort.Strings(gs)
 			sort.Strings(ws)
 			o.Site(st.Pos(), "word %s := %s", I, strings.Join(gs, " | "))
-			if len(gs) == 0 && len(ws) == 0 && !holds(q.add(I, -1)) {
+			// every bit shifted out: n >= 64*len(bits) puts q at or above the array length, above every index
+			allOut := false
+			if len(lsh.Params) > 0 {
+				lenBits := linSym("len(" + lsh.Params[0].Name() + "." + bitsField + ")")
+				allOut = holds(nF.add(lenBits.scale(64), -1).add(linConst(1), 1))
+			}
+			if len(gs) == 0 && len(ws) == 0 && !holds(q.add(I, -1)) && !allOut {
 				// nothing is shifted into the word: right only where the source word i-q does not exist (i < q)
 				fail(st.Pos(), "Lsh clears word %s on a path that has not established that its source word i-q lies below the array (i < q): bits of numbers still inside the window are wiped", I)
 				continue
